@@ -424,6 +424,14 @@ def c06h(ctx):
 
 
 def run(ctx):
+    # "when an input change removes a cycle the results follow": the member that closed the ring keeps its callee in the edge
+    # ORDER but has no observation - it is dirtied through the backward edge wired from that order (C01.c's arm-symmetry /
+    # role clauses on set_computed and friends), evaluated here as C06.i
+    from . import C01
+    ctx.alias = {"C01.c": "C06.i"}
+    ctx.run_clause("C06.i", C01.c01c)
+    ctx.run_clause("C06.i", C01.c01c_roles)
+    ctx.alias = {}
     ctx.run_clause("C06.h", c06h)
     ctx.run_clause("C06.g", c06g)
     ctx.run_clause("C06.f", c06f)
